@@ -9,15 +9,10 @@ NOTE_COMMON = ("Trusted: Coq 8.16.1 kernel; the hand-written Gallina model (tied
                "(ExtrOcamlBasic/ExtrOCamlFloats/ExtrOCamlInt63) + OCaml driver; the Go harness. Axioms per "
                "theorem are in evidence.coverage.axioms_per_theorem.")
 
-CLAIMS = {
-    "C12": dict(
-        text="Coq proof, over every operation history (incl. loops mutating the map they iterate), that the model of "
-             "mapVal (hash map + order slice) refines an insertion-ordered association list and never dereferences a "
-             "missing entry; dictionary laws, iteration-snapshot and order-insensitive equality theorems. The model is "
-             "tied to the code by running random histories as evy programs (4 aliases, alternative syntaxes) on the real "
-             "evaluator and on the extracted model and comparing prints and panic class.",
-        design="6/C12", technique="Coq refinement proof (history simulation) + differential correspondence on evy programs"),
-}
+import glob
+CLAIMS = {}
+for f in sorted(glob.glob(os.path.join(ROOT, "claims.d", "*.json"))):
+    CLAIMS[os.path.basename(f)[:-5]] = json.load(open(f))
 
 checks, na = [], []
 for p in props:
@@ -45,7 +40,7 @@ m = {
         "guard": "verif",
         "enable": "go build -tags verif (harness module with replace evylang.dev/evy => /repo)",
         "baseline_off_cmd": "cd /repo && go test -mod=mod -vet=off -count=1 ./... && cd learn && go test -mod=mod -vet=off -count=1 ./...",
-        "source_commits": [l.strip() for l in open(os.path.join(ROOT, "MANIFEST.hooks")) if l.strip() and not l.startswith("#")] if os.path.exists(os.path.join(ROOT, "MANIFEST.hooks")) else [],
+        "source_commits": [l.split()[0] for l in open(os.path.join(ROOT, "MANIFEST.hooks")) if l.strip() and not l.startswith("#")] if os.path.exists(os.path.join(ROOT, "MANIFEST.hooks")) else [],
         "add_only": True,
     },
     "engines": [{"name": "coq+correspondence", "path": "/verif/check",
